@@ -32,7 +32,7 @@ def model_cfg():
         seed=st.integers(0, 2 ** 31 - 1), layers=st.integers(1, 3), heads=st.sampled_from([1, 2, 4]),
         width=st.sampled_from([8, 16, 32]), ff=st.sampled_from([16, 64]), classes=st.integers(4, 9),
         gain=st.sampled_from([1.0, 3.0, 8.0]), end_bias=st.sampled_from([-0.5, 0.1, 0.4, 1.0, 2.0]), enc_layers=st.integers(1, 2),
-        ignore_bias=st.sampled_from([-4.0, -4.0, 0.0, 1.5])))
+        ignore_bias=st.sampled_from([-4.0, 0.0, 1.5])))
 
 
 def build_model(cfg, max_seq_len=64):
